@@ -1361,6 +1361,10 @@ func runC07(c *Ctx) {
 						}
 					}
 				})
+			} else if fn.Object() != nil && fn.Object().Exported() && !addrTaken(fn) {
+				// an exported API function runs in its caller's goroutine: calling the teardown there is the
+				// user closing the connection, not a stale asynchronous call
+				ok = true
 			} else if fn.Object() != nil && !fn.Object().Exported() && !addrTaken(fn) {
 				sites := c.staticCallers(fn)
 				ok = len(sites) > 0
@@ -1393,7 +1397,7 @@ func runC07(c *Ctx) {
 				nTd++
 				_, isGo := cs.(*ssa.Go)
 				ok := !isGo && memberOnly(fn, 0)
-				r.Add("R2", "teardown-caller:"+c.FuncKey(fn), c.InstrPos(cs), c.FuncKey(fn), "inside the library the identity-less teardown is called only by a connection goroutine (or a helper only they reach), never by a timer callback or detached goroutine, which belongs to no connection and closes whichever one is up when it runs", ok,
+				r.Add("R2", "teardown-caller:"+c.FuncKey(fn), c.InstrPos(cs), c.FuncKey(fn), "inside the library the identity-less teardown is called only synchronously on behalf of a connection goroutine or of the API caller (exported functions and helpers only they reach), never by a timer callback, a detached goroutine or a handler-table function: such a call belongs to no connection and closes whichever one is up when it runs (or, from a handler, waits for its own event loop)", ok,
 					kindName(cs)+" in "+c.FuncKey(fn))
 			}
 		}
